@@ -42,6 +42,7 @@ type c08Scenario struct {
 	Batches  [][][2]int  `json:"batches"`   // arrival goroutines: list of (sender, message index) in arrival order
 	RegFirst bool        `json:"reg_first"` // registrations are started before the arrivals (still scheduled freely)
 	Cancel   bool        `json:"cancel"`
+	Window   int         `json:"window,omitempty"` // receiver's number of precomputed message keys (0 = default 100)
 }
 
 type c08Msg struct {
@@ -65,7 +66,13 @@ func c08Run(t *testing.T, sc c08Scenario, choices []int) vsched.Outcome {
 	g, _, _ := NewGroupMultiMember()
 	gpk, _ := g.GetPubKey()
 	// receiver
-	rss, _ := secretstore.NewInMemSecretStore(nil)
+	var rssOpts *secretstore.NewSecretStoreOptions
+	W := 100
+	if sc.Window > 0 {
+		W = sc.Window
+		rssOpts = &secretstore.NewSecretStoreOptions{PreComputedKeysCount: sc.Window}
+	}
+	rss, _ := secretstore.NewInMemSecretStore(rssOpts)
 	_ = rss.PutGroup(vCtx, g)
 	rmd, _ := rss.GetOwnMemberDeviceForGroup(g)
 	type sender struct {
@@ -195,25 +202,44 @@ func c08Run(t *testing.T, sc c08Scenario, choices []int) vsched.Outcome {
 		got[c.String()]++
 	}
 	stranded := false
+	beyond := false
 	for si, sd := range senders {
+		// which arrived messages become openable (C02): counter k opens once c < k <= c + W + opened; the pipeline
+		// retries a device's parked messages after every open, so the least fixed point must be delivered
+		c := sc.Senders[si].AnnounceAt
+		openable := map[int]bool{}
+		for changed := true; changed; {
+			changed = false
+			for i, m := range sd.msgs {
+				if openable[i] || arrivals[m.e.GetHash().String()] == 0 {
+					continue
+				}
+				if k := i + 1; k > c && k <= c+W+len(openable) {
+					openable[i], changed = true, true
+				}
+			}
+		}
 		parkedWant := 0
 		for i, m := range sd.msgs {
 			id := m.e.GetHash().String()
 			arr := arrivals[id]
-			decryptable := i >= sc.Senders[si].AnnounceAt
-			if !decryptable {
+			if arr > 0 && i+1 > c+W {
+				beyond = true
+			}
+			if !openable[i] {
 				parkedWant += arr
 				if got[id] != 0 {
-					out.Fail("undecryptable-delivered", "sender %d message %d was sealed before the announcement but was delivered", si, i)
+					if i < c {
+						out.Fail("undecryptable-delivered", "sender %d message %d was sealed before the announcement but was delivered", si, i)
+					} else {
+						out.Fail("harness-model", "sender %d message %d delivered although the ratchet model says it is beyond the window", si, i)
+					}
 				}
-				continue
-			}
-			if arr == 0 {
 				continue
 			}
 			if got[id] < 1 {
 				stranded = true
-				out.Fail("decryptable-not-delivered", "sender %d message #%d (announcement after %d) arrived %d time(s), its chain key is registered, but it was never delivered (process loop idle, queue empty)", si, i, sc.Senders[si].AnnounceAt, arr)
+				out.Fail("decryptable-not-delivered", "sender %d message #%d (announcement after %d, window %d) arrived %d time(s), its chain key is registered and it is within the window of what was opened, but it was never delivered (process loop idle, queue empty)", si, i, c, W, arr)
 			}
 			if got[id] > arr {
 				out.Fail("delivered-too-often", "sender %d message %d arrived %d time(s) but was delivered %d times", si, i, arr, got[id])
@@ -258,7 +284,10 @@ func c08Run(t *testing.T, sc c08Scenario, choices []int) vsched.Outcome {
 			mixed = true
 		}
 	}
-	out.NonTrivial = window || mixed
+	out.NonTrivial = window || mixed || beyond
+	if beyond {
+		out.Labels = append(out.Labels, "pipeline/arrival-beyond-key-window")
+	}
 	if window {
 		out.Labels = append(out.Labels, "pipeline/registration-between-lookup-and-park")
 	}
@@ -276,6 +305,8 @@ func c08Scenarios() []c08Scenario {
 		{Senders: []c08Sender{{2, 0}}, Batches: [][][2]int{{{0, 0}}, {{0, 1}, {0, 0}}}},
 		{Senders: []c08Sender{{1, 0}, {1, 0}}, Batches: [][][2]int{{{0, 0}, {1, 0}}}},
 		{Senders: []c08Sender{{1, 0}}, Batches: [][][2]int{{{0, 0}}}, Cancel: true},
+		{Senders: []c08Sender{{4, 0}}, Batches: [][][2]int{{{0, 3}, {0, 0}, {0, 1}, {0, 2}}}, RegFirst: true, Window: 2},
+		{Senders: []c08Sender{{3, 0}}, Batches: [][][2]int{{{0, 2}}, {{0, 1}, {0, 0}}}, Window: 1},
 	}
 	if vacct.Thorough() {
 		scs = append(scs,
@@ -312,7 +343,8 @@ func TestVerif_C08_Random(t *testing.T) {
 		return
 	}
 	e.Random(t, vacct.N(250, 20000), func(rt *rapid.T) c08Scenario {
-		sc := c08Scenario{RegFirst: rapid.Bool().Draw(rt, "regfirst"), Cancel: rapid.IntRange(0, 9).Draw(rt, "cancel") == 0}
+		sc := c08Scenario{RegFirst: rapid.Bool().Draw(rt, "regfirst"), Cancel: rapid.IntRange(0, 9).Draw(rt, "cancel") == 0,
+			Window: rapid.SampledFrom([]int{0, 0, 1, 2, 3}).Draw(rt, "window")}
 		ns := rapid.IntRange(1, 2).Draw(rt, "senders")
 		var all [][2]int
 		for si := 0; si < ns; si++ {
